@@ -26,6 +26,7 @@ type callTarget struct {
 	recvPtr  bool        // method has pointer receiver
 	recvType types.Type  // declared receiver type
 	fn       *types.Func // static callee, if any
+	recvPath []int       // promoted method: field path from recv to the embedded receiver
 	lit      *ast.FuncLit
 }
 
@@ -53,7 +54,7 @@ func (t *tr) resolveCall(c *ast.CallExpr) *callTarget {
 				}
 				if len(sl.Index()) > 1 {
 					// promoted method through embedded fields: receiver is the embedded field
-					ct.key = funcKey(m)
+					ct.recvPath = sl.Index()[:len(sl.Index())-1]
 				}
 				return ct
 			case types.FieldVal:
@@ -146,7 +147,34 @@ func (t *tr) evCall(c *ast.CallExpr) []Term {
 	var recvTerm Term
 	var writeback func()
 	haveRecv := false
-	if ct.recv != nil {
+	if ct.recv != nil && len(ct.recvPath) > 0 {
+		// promoted method: load the embedded field that is the real receiver
+		haveRecv = true
+		base := t.ev(ct.recv)
+		emb := t.loadPath(base, ct.recvPath, c.Pos())
+		et := emb.T
+		_, embIsPtr := et.Underlying().(*types.Pointer)
+		switch {
+		case isInterface(et):
+			t.safety(neq(emb, intLit(0)), "safety/nil", c.Pos(), "method call on nil embedded interface")
+			recvTerm = emb
+		case ct.recvPtr && !embIsPtr:
+			// pointer-receiver method on an embedded struct value: copy-in (no write-back through promoted path)
+			p := t.alloc()
+			p.T = types.NewPointer(et)
+			t.storePtr(p, emb, c.Pos())
+			recvTerm = p
+			t.V.note("promoted pointer-receiver method on embedded value: receiver passed as a copy")
+		case !ct.recvPtr && embIsPtr:
+			t.safety(neq(emb, intLit(0)), "safety/nil", c.Pos(), "method call through nil embedded pointer")
+			recvTerm = t.loadPtr(emb, c.Pos())
+		default:
+			recvTerm = emb
+		}
+		if ct.recvType != nil {
+			recvTerm.T = ct.recvType
+		}
+	} else if ct.recv != nil {
 		haveRecv = true
 		rt := t.typeOf(ct.recv)
 		_, exprIsPtr := rt.Underlying().(*types.Pointer)
@@ -498,6 +526,15 @@ func (t *tr) modLoc(l ast.Expr, sc *specCtx) []frameLoc {
 		v := t.spec(x, sc)
 		return t.modObject(v, sc)
 	case *ast.SelectorExpr:
+		// GhostOwner.field => the whole ghost-field heap
+		if id, ok := x.X.(*ast.Ident); ok {
+			if d, ok := t.V.ghostFlds[x.Sel.Name]; ok && d.Owner == id.Name {
+				if _, isVar := sc.vars[id.Name]; !isVar {
+					GT := t.resolveType(d.Type, t.V.Pkgs[d.PkgPath])
+					return []frameLoc{{heap: t.ghostFieldHeap(d, t.V.W.sortOf(GT)), whole: true}}
+				}
+			}
+		}
 		// Type.field => whole heap
 		if T := t.resolveType(x.X, sc.pkg); T != nil {
 			if id, ok := x.X.(*ast.Ident); !ok || sc.vars[id.Name].S == "" {
